@@ -431,7 +431,8 @@ META["C14"] = dict(
     "missing required init_args, non-str class_path) through object, argv and config text against Base, Optional[Base] and "
     "Union[Base,int]; instantiate_classes judged by the constructor log (exact type, once, configured init_args + dict_kwargs, "
     "children first and as objects); six short notations compared with the explicit form; class changes between sources."
-    " Two-source scenarios: a class chosen by an earlier --cfg, then a later --cfg giving only init_args for that position (plain option, several entries of a Dict[str, Base], a class group inside a subcommand), compared with the same later source written with its class_path. After a class change, parameters that no source touched must carry the defaults of the finally chosen class.",
+    " Two-source scenarios: a class chosen by an earlier --cfg, then a later --cfg giving only init_args for that position (plain option, several entries of a Dict[str, Base], a class group inside a subcommand), compared with the same later source written with its class_path. After a class change, parameters that no source touched must carry the defaults of the finally chosen class."
+    " Also: dict_kwargs given by dotted sub-options before / between / after other sub-options of the same (plain or nested) class argument, with the class optionally named again, compared with the explicit spec and with the constructor log; subclasses that come into existence (module written and imported) after earlier name-only lookups, given by bare name and by import path.",
     level_note="Trusted: issubclass / inspect.signature of the generated family as ground truth; one family, randomised specs.",
     shards=g(4, 16),
     budget=g(40, 240),
@@ -440,6 +441,7 @@ META["C14"] = dict(
     "distinct by hash; all are non-trivial (a decision or an instantiation is judged).",
     gates={
         "mon.class_change_untouched_parameter_has_own_default": g(100, 1000),
+        "mon.dict_kwargs_dotted_forms": g(150, 1500), "mon.subclass_defined_after_first_name_lookup": g(20, 200),
         "mon.two_source_short_forms": g(300, 3000), "st.two_sources.dict-entry": g(80, 800), "st.two_sources.subcommand-class-group": g(40, 400),
         "mon.spec_decisions": g(3000, 30000), "mon.instantiations": g(500, 5000), "mon.short_vs_explicit": g(2000, 20000),
         "mon.nested": g(300, 3000), "mon.class_change": g(300, 3000),
@@ -641,7 +643,7 @@ META["C13"] = dict(
     "recursive model over Python's own MRO computing the reachable named parameters from the generator's spec, and the "
     "interpreter (calls with each candidate parameter). Compared with get_signature_parameters: offered set, hard-coded names, "
     "annotation and default per parameter; then add_class_arguments + parse + instantiate_classes with every offered parameter, "
-    "and enforcement of required ones. An offered parameter the model does not expect is confirmed by constructing the object and, where **kwargs are kept in an attribute, by using it.",
+    "and enforcement of required ones. An offered parameter the model does not expect is confirmed by constructing the object and, where **kwargs are kept in an attribute, by using it. Also the documented non-immediate super(Parent, self) that skips the parent's __init__; and per generated hierarchy not only the leaf but up to three classes are resolved in one process in random order (chain classes alone and below their subclasses; Left alone under Solo and inside Diamond), so that anything remembered from one resolution shows in the next.",
     level_note="Only documented patterns are composed; a case where the interpreter itself rejects the model's parameter set is "
     "skipped and counted (generator inconsistency, not a verdict). Conditional<ast-resolver> parameters are excluded from 'offered'.",
     shards=g(4, 16),
@@ -651,6 +653,8 @@ META["C13"] = dict(
     "generated program imports and the interpreter accepts the model's parameter set.",
     gates={
         "st.condition_on_a_parameter": g(100, 1000), "st.pattern.cond-class": g(50, 500),
+        "st.pattern.super-skip": g(80, 800), "st.non_leaf_class_of_the_same_hierarchy.before_the_leaf": g(600, 6000),
+        "st.non_leaf_class_of_the_same_hierarchy.after_the_leaf": g(600, 6000), "st.two_classes_sharing_a_base_with_different_mro_continuations": g(200, 2000),
         "mon.programs": g(600, 8000), "mon.parameter_sets_compared": g(500, 7000), "mon.parser_instantiations": g(400, 6000), "mon.required_enforced": g(50, 500),
         "st.depth.5": g(40, 400), "st.multiple_inheritance": g(50, 500), "st.two_source_files": g(100, 1000), "st.hard_coded_argument": g(100, 1000),
         "st.pattern.super": g(200, 2000), "st.pattern.super-hard": g(80, 800), "st.pattern.noinit": g(80, 800), "st.pattern.func": g(80, 800),
